@@ -134,8 +134,11 @@ func (p *Prog) reachable(roots ...*ssa.Function) map[*ssa.Function]bool {
 			return
 		}
 		if f.Pkg != p.Lime && f.Pkg != p.Chat {
-			// promoted-method wrappers have Pkg nil sometimes: follow them
-			if f.Synthetic == "" || f.Pkg != nil {
+			// promoted-method / bound-method wrappers: follow them
+			if f.Synthetic == "" {
+				return
+			}
+			if f.Pkg != nil && f.Pkg != p.Lime && f.Pkg != p.Chat {
 				return
 			}
 		}
@@ -145,6 +148,20 @@ func (p *Prog) reachable(roots ...*ssa.Function) map[*ssa.Function]bool {
 				visit(e.Callee.Func)
 			}
 		}
+		// sync.Once.Do(f) runs f: the call graph edge leaves the repository, so follow the argument directly
+		eachCall(f, func(c ssa.CallInstruction) {
+			if g := staticCallee(c); g != nil && g.Pkg != nil && g.Pkg.Pkg.Path() == "sync" && g.Name() == "Do" && len(c.Common().Args) == 2 {
+				switch x := stripConv(c.Common().Args[1]).(type) {
+				case *ssa.MakeClosure:
+					fn := x.Fn.(*ssa.Function)
+					visit(fn)
+					// bound-method wrapper: its target
+					eachCall(fn, func(c2 ssa.CallInstruction) { visit(staticCallee(c2)) })
+				case *ssa.Function:
+					visit(x)
+				}
+			}
+		})
 		for _, a := range f.AnonFuncs {
 			// a literal that is only stored (not called here) is still part of the function's behaviour
 			_ = a
